@@ -3,7 +3,8 @@ CONSTANTS
   Bug = "none"
   Sweeps = {"small"}
   PairDepth = 2
-  DeepDepth = 2
+  NearDepth = 2
+  DeepDepth = 3
   EmitCases = FALSE
 INIT Init
 NEXT Next
